@@ -24,7 +24,7 @@ Definition spec : list srow := [
   S 0 12 (- 2 ^ 15) (2 ^ 16) 1 (- 2 ^ 16) (2 ^ 16);   (* R_X86_64_16: bfd bitfield accepts [-2^16,2^16), lld checkIntUInt [-2^15,2^16) *)
   S 0 14 (- 2 ^ 7) (2 ^ 8) 1 (- 2 ^ 8) (2 ^ 8);       (* R_X86_64_8: likewise (validated: ld accepts -129, lld rejects) *)
   S 0 13 (- 2 ^ 15) (2 ^ 15) 1 (- 2 ^ 16) (2 ^ 16);   (* PC16: lld signed, bfd bitfield *)
-  S 0 15 (- 2 ^ 7) (2 ^ 7) 1 (- 2 ^ 7) (2 ^ 8);       (* PC8 *)
+  S 0 15 (- 2 ^ 7) (2 ^ 7) 1 (- 2 ^ 7) (2 ^ 7);       (* PC8: a sign-extended displacement; bfd complain_overflow_signed and lld checkInt both reject 128..255 (validated) *)
   S 0 3 0 (2 ^ 31) 1 (- 2 ^ 31) (2 ^ 32);             (* GOT32: sign convention differs: conservative *)
   full 0 24; full 0 25; full 0 17; full 0 27; full 0 29; full 0 31;
   (* ---- AArch64 (arch 1) ---- *)
